@@ -12,9 +12,12 @@ import Hcl.Model.Dump
 import Hcl.Model.Messages
 import Hcl.Spec.DumpFormat
 import Hcl.Model.Cli
+import Hcl.Model.CliArgv
+import Hcl.Model.CliBytes
 import Hcl.Model.Lexer
 import Hcl.Model.Parser
 import Hcl.Model.ParserStmts
+import Hcl.Model.ParserStmtsSp
 import Hcl.Model.Io
 import Hcl.Model.Errors
 import Hcl.Spec.Locate
@@ -197,6 +200,37 @@ def hasField (fields : List SExp) (name : String) : Bool :=
 def preambleChars (fields : List SExp) : List Char :=
   if hasField fields "nopreamble" then [] else Generated.preambleBytes.map Char.ofNat
 
+/-! #### the statement-level spans (`Hcl/Model/ParserStmtsSp.lean`) against the spans of the real AST (`sspans`) -/
+
+/-- an offset of preamble + text relative to the start of the user's text, as the harness prints it (negative inside
+    the preamble) -/
+def relOff (prelen x : Nat) : String := toString (Int.ofNat x - Int.ofNat prelen)
+
+def showSpanRel (prelen : Nat) (sp : Parser.Span) : String := relOff prelen sp.1 ++ " " ++ relOff prelen sp.2
+
+/-- the statement-level spans of a spanned statement list in the format of the harness's `(sspans ..)` field
+    (`sspans_field` in harness/src/progrun.rs) -/
+def showSSpans (prelen : Nat) (ss : List Parser.SStmt) : String :=
+  let sp := showSpanRel prelen
+  let one : Parser.SStmt → String
+    | .wires ds => "(wire" ++ String.join (ds.map fun d => s!" ({sp d.span})") ++ ")"
+    | .consts ds => "(const" ++ String.join (ds.map fun d => s!" ({sp d.nameSpan} {sp d.value.span})") ++ ")"
+    | .assigns as => "(assign" ++ String.join (as.map fun a =>
+        s!" ({sp a.span} ({" ".intercalate (a.names.map fun n => s!"({sp n.2})")}) {sp a.value.span})") ++ ")"
+    | .bank b => s!"(bank {sp b.span} {sp b.nameSpan}" ++
+        String.join (b.registers.map fun r => s!" ({sp r.span} {sp r.default.span})") ++ ")"
+  "(sspans" ++ String.join (ss.map fun st => " " ++ one st) ++ ")"
+
+/-- ` stmts-spans-agree` when the spans `parseProgramSp` computes for preamble + text are exactly the spans of the real
+    AST, ` stmts-spans-DIFFER` otherwise (also when the model does not parse the text); nothing for a request without
+    the field `sspans` -/
+def stmtsSpansVerdict (fields : List SExp) (cls : Lexer.CharCls) (pre user : List Char) : String :=
+  if !hasField fields "sspans" then "" else
+  let theirs := SExp.toString (.list (.atom "sspans" :: field fields "sspans"))
+  match Parser.parseProgramSp cls (pre ++ user) with
+  | none => " stmts-spans-DIFFER"
+  | some ss => if showSSpans (Lexer.sizeOf' pre) ss == theirs then " stmts-spans-agree" else " stmts-spans-DIFFER"
+
 /-- the statement-grammar model on preamble + the request's `text` against the real parser's AST (`stmts`): the token
     appended to the verdict part of the answer, or nothing when the request has no `text` -/
 def stmtsModelVerdict (fields : List SExp) (stmts : List Stmt) : String :=
@@ -205,9 +239,10 @@ def stmtsModelVerdict (fields : List SExp) (stmts : List Stmt) : String :=
     | [.atom t] => (unescapeText t).toList
     | _ => []
   if !stmtsClsKnown (field fields "cls") user then " stmts-model-unclassified-char" else
+  let spans := stmtsSpansVerdict fields (stmtsLexCls (field fields "cls")) (preambleChars fields) user
   match Parser.parseProgram (stmtsLexCls (field fields "cls")) (preambleChars fields ++ user) with
-  | none => " stmts-model-NONE"
-  | some mine => if mine == stmts then " stmts-model-agree" else " stmts-model-DIFFER"
+  | none => " stmts-model-NONE" ++ spans
+  | some mine => (if mine == stmts then " stmts-model-agree" else " stmts-model-DIFFER") ++ spans
 
 /-- a text the real parser rejected with errors (`(anytext .. (outcome ..) (lex (cls ..) (text CODEPOINTS)))`): the
     model must not parse preamble + text -/
@@ -637,6 +672,57 @@ def hexAtom? : SExp → Option Bytes
     | _ => none
   | _ => none
 
+/-- the argument vector of a `cli` request: `(argv x.. x.. …)`, one hex atom per argument (its UTF-8 bytes) -/
+def argvOf? (fields : List SExp) : Option (List String) :=
+  (field fields "argv").mapM fun a => do
+    let bs ← hexAtom? a
+    String.fromUTF8? (ByteArray.mk (bs.map UInt8.ofNat).toArray)
+
+/-- `cli` requests that carry the argument vector: the model answer is `Cli.mainArgv` of the vector itself (the outside
+    world is what the request says about the two files and the run); the fields the generator derived from the vector by
+    its own means are compared with the ones the model derives (verdict after `;; V`). -/
+def argvBytesOf? (fields : List SExp) : Option (List (List UInt8)) :=
+  (field fields "argv").mapM fun a => (hexAtom? a).map (·.map UInt8.ofNat)
+
+def handleCliArgv (fields : List SExp) : String :=
+  if !hasField fields "argv" then handleCli fields else
+  match argvOf? fields with
+  | none =>
+    -- an argument that is not UTF-8: the model of the byte-level entry (`Cli.mainArgvBytes`)
+    (match argvBytesOf? fields with
+     | none => "bad-request undecodable-argv"
+     | some bargs =>
+       let w : Cli.World := { hclOf := fun _ => .unreadable, yoOf := fun _ => .unopenable, runOf := fun _ _ _ => .finished }
+       let r := Cli.mainArgvBytes w bargs
+       let msg := match Cli.optionMessageBytes bargs with
+         | some m => " msg=x" ++ hexOfBytes (m.toUTF8.data.toList.map UInt8.toNat)
+         | none => ""
+       let agree := strField fields "opterr" == "1"
+       s!"M exit={r.status} out={((repr r.out).pretty.splitOn ".").getLast!}{msg} ;; S exit=1 ;; V {if agree then "argv-fields-agree" else "argv-fields-DIFFER"}")
+  | some args =>
+    let b (n : String) : Bool := strField fields n == "1"
+    let w : Cli.World :=
+      { hclOf := fun _ => (match strField fields "hcl" with | "accepted" => .accepted | "rejected" => .rejected | _ => .unreadable),
+        yoOf := fun _ => (match strField fields "yo" with | "loaded" => .loaded | "unloadable" => .unloadable | _ => .unopenable),
+        runOf := fun _ _ _ => (if strField fields "run" == "aborted" then .aborted else .finished) }
+    let r := Cli.mainArgv w args
+    let a := Cli.inputOf w args
+    -- the specification side is computed from the fields the GENERATOR derived (not from the model's reading of argv)
+    let sa : Cli.CliInput :=
+      { optionError := b "opterr", help := b "help", version := b "version", check := b "check",
+        nfree := natField fields "nfree" 0, hcl := w.hclOf "", yoHasSuffix := b "suffix", yo := w.yoOf "",
+        timeoutValid := b "tvalid", run := w.runOf "" "" ⟨false, false, false, false, false, false, 0⟩ }
+    let msg := match Cli.optionMessage args with
+      | some m => " msg=x" ++ hexOfBytes (m.toUTF8.data.toList.map UInt8.toNat)
+      | none => ""
+    let extra := if r.out == .finalState then s!" cycles={strField fields "cycles"} banner={strField fields "banner"}" else ""
+    let agree :=
+      a.optionError == b "opterr" &&
+      (a.optionError ||
+        (a.help == b "help" && a.version == b "version" && a.check == b "check" && a.nfree == natField fields "nfree" 0 &&
+         a.yoHasSuffix == b "suffix" && (a.nfree < 3 || a.timeoutValid == b "tvalid")))
+    s!"M exit={r.status} out={((repr r.out).pretty.splitOn ".").getLast!}{msg}{extra} ;; S exit={specExit sa} ;; V {if agree then "argv-fields-agree" else "argv-fields-DIFFER"}"
+
 def spanOf? : SExp → Option (Nat × Nat)
   | .list [a, b] => do
     let x ← a.nat?
@@ -758,7 +844,7 @@ def handle (line : String) : String :=
     | some ("dump", fields) => handleDump fields
     | some ("table", fields) => handleTable fields
     | some ("messages", fields) => handleMessages fields
-    | some ("cli", fields) => handleCli fields
+    | some ("cli", fields) => handleCliArgv fields
     | some ("lex", fields) => handleLex fields
     | some ("rawfile", _) => "M - ;; S -"
     | some ("anytext", fields) =>
